@@ -176,7 +176,12 @@ h("C16", "c16", "c16_model_canonicalize_far_lattice_1d", "thorough", 6000,
 h("C16", "c16", "c16_canonicalize_point_far_lattice_2d", "thorough", 6000,
   f"ToroidalSpace::canonicalize_point, D=2 (axis 0 symbolic), {FAR}: {FARLAW}",
   ["topology::spaces::toroidal::<ToroidalSpace as TopologicalSpace>::canonicalize_point"])
-h("C16", "c16", "c16_builder_canonicalize_vertices_2d", "thorough", 6000,
+h("C16", "c16", "c16_builder_canonicalize_vertices_1d", "thorough", 6000,
+  f"DelaunayTriangulationBuilder::canonicalize_vertices with a toroidal model, one vertex, D=1, {LAT}: "
+  f"UUID and user data preserved, {BOX}",
+  ["core::builder::DelaunayTriangulationBuilder::canonicalize_vertices",
+   "topology::traits::global_topology_model::ToroidalModel::canonicalize_point_in_place"])
+h("C16", "c16", "c16_builder_canonicalize_vertices_2d", "thorough", 9000,
   f"DelaunayTriangulationBuilder::canonicalize_vertices with a toroidal model, one vertex, D=2 (axis 0 symbolic), {LAT}: "
   f"UUID and user data preserved, {BOX}",
   ["core::builder::DelaunayTriangulationBuilder::canonicalize_vertices",
